@@ -73,3 +73,6 @@ Proof. vm_compute. reflexivity. Qed.
 (* the per-backend glue code has exactly the shape the backend contracts are stated for *)
 Lemma src_glue_ok : glue_ok sched_impl_src impl_ctor_src impl_wait_src = true /\ async_unknown_stmts_src = 0%nat.
 Proof. split; vm_compute; reflexivity. Qed.
+
+Lemma src_pipe_claims_ok : pipe_claims_ok pipe_front_claim_src pipe_back_claim_src pipe_write_guard_src = true.
+Proof. vm_compute. reflexivity. Qed.
